@@ -38,6 +38,7 @@ def dispatch (req : Json) : Except String Json := do
   | "bp_f" => handleBPF req
   | "mle_f" => handleMLE req
   | "col_check" => handleColCheck req
+  | "synth_table" => handleSynthTable req
   | "rg_build" => handleRGBuild req
   | "gbp" => handleGBP req
   | "hps" => handleHPS req
